@@ -423,8 +423,8 @@ def classify_known(stream, case, impl, failure):
     if failure == "diff":
         # the model reproduces the behaviour; a model/implementation difference is never this family
         return None
-    if differing and differing <= suspects and kinds["fresh"] == "InvalidSubcommand" \
-            and all(kinds[k] == "DisplayHelp" for k in differing):
+    fresh_ok = kinds["fresh"] == "InvalidSubcommand" or (kinds["fresh"] == "ok" and "ignore_errors" in case)
+    if differing and differing <= suspects and fresh_ok and all(kinds[k] == "DisplayHelp" for k in differing):
         return "C11-help-tree-after-build"
     return None
 
